@@ -28,3 +28,33 @@ def prove(domain: Sequence[Any], claim: Any, timeout_s: float = 60.0, tactic: Op
 def model_int(model: Any, var: Any) -> int:
     v = model.eval(var, model_completion=True)
     return v.as_long()
+
+
+def cvc5_check(constraints: Sequence[Any], timeout_s: float = 10.0) -> Tuple[str, float]:
+    """Second opinion: the same query (z3's SMT-LIB2 export) decided by cvc5 1.4 (wheel). ('unsat'|'sat'|'unknown'|'error', s)"""
+    t0 = time.time()
+    try:
+        import cvc5
+        s = z3.Solver()
+        s.add(*constraints)
+        text = s.to_smt2()
+        slv = cvc5.Solver()
+        slv.setOption("tlimit-per", str(int(timeout_s * 1000)))
+        slv.setOption("nl-cov", "true")
+        slv.setLogic("ALL")
+        parser = cvc5.InputParser(slv)
+        parser.setStringInput(cvc5.InputLanguage.SMT_LIB_2_6, text, "q")
+        sm = parser.getSymbolManager()
+        res = "unknown"
+        while True:
+            cmd = parser.nextCommand()
+            if cmd.isNull():
+                break
+            out = str(cmd.invoke(slv, sm)).strip()
+            if out in ("sat", "unsat", "unknown"):
+                res = out
+            elif out.startswith("(error"):
+                return "error", time.time() - t0
+        return res, time.time() - t0
+    except Exception:
+        return "error", time.time() - t0
